@@ -5,7 +5,7 @@ Gemini URLs according to the protocol specification.
 """
 
 from typing import NamedTuple
-from urllib.parse import urlparse, urlunparse
+from urllib.parse import unquote, urlparse, urlunparse
 
 from ..protocol.constants import DEFAULT_PORT, MAX_REQUEST_SIZE
 
@@ -105,6 +105,39 @@ def parse_url(url: str) -> ParsedURL:
         fragment=parsed.fragment or "",
         normalized=normalized,
     )
+
+
+def canonical_path(path: str) -> str:
+    """Return the canonical form of a URL path.
+
+    Percent-escapes are decoded once, empty and "." segments are dropped and
+    ".." segments remove the preceding segment (never climbing above "/"),
+    as in RFC 3986 section 5.2.4. A trailing slash is kept. Everything that
+    decides *which resource* a path denotes (file lookup, access rules) must
+    work on this form, so that different spellings of one resource are
+    treated alike.
+
+    Examples:
+        >>> canonical_path('/a/./b/../c')
+        '/a/c'
+        >>> canonical_path('//app/%2e%2e/x/')
+        '/x/'
+    """
+    decoded = unquote(path)
+    segments: list[str] = []
+    parts = decoded.split("/")
+    for part in parts:
+        if part in ("", "."):
+            continue
+        if part == "..":
+            if segments:
+                segments.pop()
+            continue
+        segments.append(part)
+    canonical = "/" + "/".join(segments)
+    if segments and parts[-1] in ("", ".", ".."):
+        canonical += "/"
+    return canonical
 
 
 def validate_url(url: str) -> None:
